@@ -593,43 +593,51 @@ func (c *Ctx) c12Helpers(f *ircFacts) {
 			}
 			r.Check(okCh, "C12.T1", fi.Name(), "iterates the members of its channel parameter", pos, "range c.nicks", "the helper does not iterate the member list of the channel it was given")
 		}
-		// filters: conditions inside the helper
+		// filters: what is known where a recipient is inserted (judged on the graph: `if !ok { continue }` and
+		// `if ok { … }`, `if s == user { continue }` and `if s != user { … }` are the same filter)
 		nCond := 0
-		ast.Inspect(fi.Body(), func(n ast.Node) bool {
-			ifs, ok := n.(*ast.IfStmt)
-			if !ok {
-				return true
-			}
-			nCond++
-			okF := false
-			switch sp.filter {
-			case "ok":
-				if u, ok := ast.Unparen(ifs.Cond).(*ast.UnaryExpr); ok && u.Op == token.NOT {
-					if id, ok := ast.Unparen(u.X).(*ast.Ident); ok {
+		{
+			g := c.Graph(fi)
+			up := paramOfType(fi, pathIrcsrv, "Session")
+			for _, v := range g.Nodes() {
+				as, ok := v.Node.(*ast.AssignStmt)
+				if !ok || len(as.Lhs) != 1 {
+					continue
+				}
+				ie, ok := ast.Unparen(as.Lhs[0]).(*ast.IndexExpr)
+				if !ok || !isFieldMap(info, fi.Node(), ie.X, ifor) {
+					continue
+				}
+				for _, fct := range g.FactsAt(v.ID) {
+					if fct.Tag != nil {
+						continue
+					}
+					okF := false
+					// found in i.channels (comma-ok), positive
+					if id, isID := ast.Unparen(fct.Expr).(*ast.Ident); isID && fct.Val && sp.filter == "ok" {
 						for _, d := range defsOf(info, fi.Node(), astx.Obj(info, id)) {
-							if ie, ok := ast.Unparen(d).(*ast.IndexExpr); d != nil && ok {
-								if se, ok := ast.Unparen(ie.X).(*ast.SelectorExpr); ok && astx.FieldSel(info, se) == f.fChannels {
+							if ix, isIx := ast.Unparen(d).(*ast.IndexExpr); d != nil && isIx {
+								if se, isSel := ast.Unparen(ix.X).(*ast.SelectorExpr); isSel && astx.FieldSel(info, se) == f.fChannels {
 									okF = true
 								}
 							}
 						}
 					}
-				}
-			case "user":
-				if be, ok := ast.Unparen(ifs.Cond).(*ast.BinaryExpr); ok && be.Op == token.EQL {
-					up := paramOfType(fi, pathIrcsrv, "Session")
-					isUser := func(e ast.Expr) bool {
-						id, ok := ast.Unparen(e).(*ast.Ident)
-						return ok && astx.Obj(info, id) == up
+					// not the given user
+					if be, isBE := ast.Unparen(fct.Expr).(*ast.BinaryExpr); isBE && sp.filter == "user" && ((be.Op == token.EQL && !fct.Val) || (be.Op == token.NEQ && fct.Val)) {
+						isUser := func(e ast.Expr) bool {
+							id, ok := ast.Unparen(e).(*ast.Ident)
+							return ok && astx.Obj(info, id) == up
+						}
+						if isUser(be.X) || isUser(be.Y) {
+							okF = true
+							nCond++
+						}
 					}
-					if isUser(be.X) || isUser(be.Y) {
-						okF = true
-					}
+					r.Check(okF, "C12.T1", fi.Name(), "filter "+astx.Str(fct.Expr), c.P.Pos(fct.Expr.Pos()), "the helper's one documented exclusion", "the helper skips recipients under a condition that is not part of its contract: entitled sessions miss messages (or the sender is echoed)")
 				}
 			}
-			r.Check(okF, "C12.T1", fi.Name(), "filter "+astx.Str(ifs.Cond), c.P.Pos(ifs.Pos()), "the helper's one documented exclusion", "the helper skips recipients under a condition that is not part of its contract: entitled sessions miss messages (or the sender is echoed)")
-			return true
-		})
+		}
 		if sp.filter == "user" {
 			r.Check(nCond == 1, "C12.T1", fi.Name(), "excludes exactly the given user", pos, "one `session == user` test", "sendChannelButOne does not exclude exactly the session it was given")
 		}
@@ -644,8 +652,7 @@ func (c *Ctx) c12Helpers(f *ircFacts) {
 			if !ok {
 				return true
 			}
-			se, ok := ast.Unparen(ie.X).(*ast.SelectorExpr)
-			if !ok || astx.FieldSel(info, se) != ifor {
+			if !isFieldMap(info, fi.Node(), ie.X, ifor) {
 				return true
 			}
 			nAdd++
